@@ -23,6 +23,11 @@ pub(super) struct Cluster {
 
 #[cfg(feature = "lz4")]
 fn lz4_source(raw_stream: ByteStream, data_size: ASize) -> Result<Arc<dyn Source>> {
+    #[cfg(jubako_verif)]
+    if crate::verif::fault("decoder_build") {
+        // simulated environment fault: no memory for the decoder context
+        return Err(std::io::Error::from_raw_os_error(12).into());
+    }
     Ok(Arc::new(SeekableDecoder::new(
         lz4::Decoder::new(raw_stream)?,
         data_size,
@@ -40,6 +45,11 @@ fn lz4_source(_raw_stream: ByteStream, _data_size: ASize) -> Result<Arc<dyn Sour
 
 #[cfg(feature = "lzma")]
 fn lzma_source(raw_stream: ByteStream, data_size: ASize) -> Result<Arc<dyn Source>> {
+    #[cfg(jubako_verif)]
+    if crate::verif::fault("decoder_build") {
+        // simulated environment fault: no memory for the decoder context
+        return Err(std::io::Error::from_raw_os_error(12).into());
+    }
     Ok(Arc::new(SeekableDecoder::new(
         xz2::read::XzDecoder::new_stream(
             raw_stream,
@@ -60,6 +70,11 @@ fn lzma_source(_raw_stream: ByteStream, _data_size: ASize) -> Result<Arc<dyn Sou
 
 #[cfg(feature = "zstd")]
 fn zstd_source(raw_stream: ByteStream, data_size: ASize) -> Result<Arc<dyn Source>> {
+    #[cfg(jubako_verif)]
+    if crate::verif::fault("decoder_build") {
+        // simulated environment fault: no memory for the decoder context
+        return Err(std::io::Error::from_raw_os_error(12).into());
+    }
     Ok(Arc::new(SeekableDecoder::new(
         zstd::Decoder::new(raw_stream)?,
         data_size,
